@@ -225,4 +225,65 @@ theorem item_rows (d t : Table) (key : String) (on : List String) (hd : d.WF)
   · simp only [Table.R_row, Table.rowF, inputRows, if_true, hvc]
     exact hval i
 
+theorem inputRows_agree (on : List String) (name : String) (d : Table) (hname : name ∉ on) :
+    ∀ i, keq on ((inputRows on name d).row i) (d.rowF i) := by
+  intro i
+  apply keq_of_agree
+  intro c hc
+  have : c ≠ name := fun he => hname (he ▸ hc)
+  simp [inputRows, this, Table.rowF]
+
+theorem inputRows_hasK (on : List String) (name : String) (d : Table) (hname : name ∉ on) (k : Row) :
+    (inputRows on name d).hasK on k ↔ d.R.hasK on k := by
+  constructor
+  · rintro ⟨i, hi, he⟩
+    exact ⟨i, hi, keq_trans (keq_symm (inputRows_agree on name d hname i)) he⟩
+  · rintro ⟨i, hi, he⟩
+    exact ⟨i, hi, keq_trans (inputRows_agree on name d hname i) he⟩
+
+theorem inputRows_uniq (on : List String) (name : String) (d : Table) (hname : name ∉ on)
+    (hu : d.R.uniq on) : (inputRows on name d).uniq on := by
+  intro i j hi hj he
+  exact hu i j hi hj (keq_trans (keq_symm (inputRows_agree on name d hname i))
+    (keq_trans he (inputRows_agree on name d hname j)))
+
+theorem dfltOf_of_nodup {l : List (String × Cell)} (h : (l.map (·.1)).Nodup) {kv : String × Cell}
+    (hkv : kv ∈ l) : dfltOf l kv.1 = some kv.2 := by
+  simp only [dfltOf, Option.map_eq_some_iff]
+  cases hf : l.reverse.find? (fun x => x.1 == kv.1) with
+  | none =>
+    rw [List.find?_eq_none] at hf
+    exact absurd (by simp) (hf kv (List.mem_reverse.2 hkv))
+  | some x =>
+    have h1 := List.find?_some hf
+    have h2 := List.mem_reverse.1 (List.mem_of_find?_eq_some hf)
+    have := eq_of_nodup_fst h h2 hkv (by simpa using h1)
+    exact ⟨x, rfl, by rw [this]⟩
+
+/-- `join` after the per-input stage -/
+theorem pdJoin_unfold (inputs seq : List (String × PInput)) (on : List String)
+    (defaults : List (String × Cell))
+    (hseq : inputs.mapM (fun kv => match kv.2 with
+      | .table d => (item d kv.1 on).map fun d' => (kv.1, PInput.table d')
+      | .scalar c => (Except.ok (kv.1, PInput.scalar c) : Res (String × PInput))) = .ok seq) :
+    pdJoin inputs on defaults =
+      if (tableInputs seq).isEmpty then some (.ok ((scalarInputs seq).map fun kv => (kv.1, [kv.2])))
+      else match joinTables (tableInputs seq)
+          (defaults.filter fun kv => (inputs.map (·.1)).contains kv.1) with
+        | some (.ok (some d)) => some ((d.setConsts (scalarInputs seq)).sortOn on)
+        | some (.ok none) => none
+        | some (.error e) => some (.error e)
+        | none => none := by
+  simp only [pdJoin]
+  split
+  · rename_i e he
+    have := he.symm.trans hseq
+    cases this
+  · rename_i seq' he
+    have : seq' = seq := by
+      have := he.symm.trans hseq
+      simpa using this
+    subst this
+    rfl
+
 end Pyg
